@@ -69,6 +69,12 @@ ASSUME SortKeys({<<98>>, <<97, 98>>, <<97>>}) = <<<<97>>, <<97, 98>>, <<98>>>>
 ASSUME Eval(Node("and", "", 0, <<>>, <<Leaf("bool", "", 0, <<>>, 1), Leaf("id", "nope", 0, <<110>>, 1)>>, <<>>, 0, 0), <<>>) = VBool(FALSE)
 ASSUME Eval(Node("or", "", 0, <<>>, <<Leaf("bool", "", 1, <<>>, 1), Leaf("id", "nope", 0, <<110>>, 1)>>, <<>>, 0, 0), <<>>) = VBool(TRUE)
 ASSUME IsErr(Eval(Node("and", "", 0, <<>>, <<Leaf("bool", "", 1, <<>>, 1), Leaf("id", "nope", 0, <<110>>, 1)>>, <<>>, 0, 0), <<>>))
+\* ... and it is type-checked exactly when it is evaluated: a non-boolean right operand fails an undecided and/or, and is
+\* not even looked at by a decided one
+ASSUME IsErr(Eval(Node("and", "", 0, <<>>, <<Leaf("bool", "", 1, <<>>, 1), Leaf("num", "", 7, <<>>, 1)>>, <<>>, 0, 0), <<>>))
+ASSUME IsErr(Eval(Node("or", "", 0, <<>>, <<Leaf("bool", "", 0, <<>>, 1), Leaf("num", "", 7, <<>>, 1)>>, <<>>, 0, 0), <<>>))
+ASSUME Eval(Node("and", "", 0, <<>>, <<Leaf("bool", "", 0, <<>>, 1), Leaf("num", "", 7, <<>>, 1)>>, <<>>, 0, 0), <<>>) = VBool(FALSE)
+ASSUME Eval(Node("or", "", 0, <<>>, <<Leaf("bool", "", 1, <<>>, 1), Leaf("num", "", 7, <<>>, 1)>>, <<>>, 0, 0), <<>>) = VBool(TRUE)
 
 EmitAlphabet == TLCGet("stats").diameter >= 0 /\ JsonSerialize("alphabet.json", [alphabet |-> SetToSeq(Alphabet), env0 |-> Env0])
 =============================================================================
